@@ -291,6 +291,46 @@ theorem two_writers_resurrect_removed :
     s2.nodes = [] ∧ get H s2 ⟨"i", "1"⟩ = .node n := by
   decide
 
+/-! ### the users (cache cluster, kv store): the ring they build and how a key is dispatched
+
+`Tie.tie_cacheUsers` / `tie_kvUsers`: both call `NewConsistentHash()` and then `AddWithWeight(node, conf.Weight)`
+per configured node, in order, and dispatch with `dispatcher.Get(key)`; nothing else touches the ring. -/
+
+/-- the ring of a configuration `[(node, weight), …]` -/
+def userRing (H : Hasher) (conf : List (Node × Int)) : CH :=
+  conf.foldl (fun s p => addWithWeight H s p.1 p.2) (CH.new (minReplicas : Int))
+
+/-- it is a reachable state of the model, so every theorem above applies to the users' dispatch -/
+theorem userRing_is_run (H : Hasher) (conf : List (Node × Int)) :
+    userRing H conf = run H (minReplicas : Int) (conf.map fun p => Op.addW p.1 p.2) := by
+  unfold userRing run
+  rw [List.foldl_map]
+  rfl
+
+/-- **dispatch goes to a configured node**: with its configured address, the LAST entry for that address,
+and a weight that gives it at least one virtual node (for 0 ≤ w ≤ 100: exactly w, `Tie.weight_is_percent`). -/
+theorem user_dispatch_member (H : Hasher) (conf : List (Node × Int)) (k n : Node)
+    (h : get H (userRing H conf) k = .node n) :
+    ∃ c, (members (minReplicas : Int) (conf.map fun p => Op.addW p.1 p.2)).find n.repr = some (n, c) ∧ 0 < c := by
+  rw [userRing_is_run] at h
+  exact get_member_only H _ _ k n h
+
+/-- dispatch never panics and is `none` only if no configured node got a virtual node -/
+theorem user_dispatch_total (H : Hasher) (conf : List (Node × Int)) (k : Node) :
+    get H (userRing H conf) k ≠ .panic ∧
+    (get H (userRing H conf) k = .none ↔
+      ∀ r, (members (minReplicas : Int) (conf.map fun p => Op.addW p.1 p.2)).cnt r = 0) := by
+  rw [userRing_is_run]
+  exact ⟨get_never_panics_reachable H _ _ k, get_none_iff_no_virtual_nodes H _ _ k⟩
+
+/-- the order of two configuration entries with different addresses does not matter -/
+theorem user_conf_order_irrelevant (H : Hasher) (conf : List (Node × Int)) (a b : Node × Int)
+    (hne : a.1.repr ≠ b.1.repr) (k : Node) :
+    get H (userRing H (conf ++ [a, b])) k = get H (userRing H (conf ++ [b, a])) k := by
+  rw [userRing_is_run, userRing_is_run]
+  simp only [List.map_append, List.map_cons, List.map_nil]
+  exact ops_on_different_nodes_commute H _ _ (.addW a.1 a.2) (.addW b.1 b.2) hne k
+
 /-! ### the monitor used on the implementation's trace is sound for the model -/
 
 /-- `memberOk` (member-only, none-iff-empty, no panic) accepts every answer of every reachable state. -/
